@@ -6,6 +6,7 @@ plan = {config: {resources:[{name, kind}], inner_resources:[...], routes:[kind..
 """
 import html
 import json
+import os
 
 import clastic.meta as cmeta
 from clastic import Application, Response, Route, render_basic, GET, POST
@@ -19,6 +20,8 @@ from sim.core.base import Check, RunResult, Streams, InvalidPlan, canon
 from sim.core.gateway import make_environ, call_app
 from sim.core.seams import Seams, SimClock
 from sim.core.hoststub import HostStub, SITES
+from sim.core.sched import BatonScheduler
+from sim.core import runner
 from sim.props.c02 import wrap_kind
 
 SECRET_NAMES = ['secret', 'secret_key', 'my_secret', 'db_secret_pw', 'apisecretkey', 'x.secret.y', 'secret-with-dash', 'a secret <b>',
@@ -176,13 +179,16 @@ def marker_forms(kind, marker):
     return [marker]
 
 
+CONC_WATCH = (os.path.join(runner.REPO, 'clastic') + os.sep, '<sinter')
+
+
 class C18(Check):
     id = 'C18'
     world = 'meta'
     level = 'fault_enumeration'
     design_ref = 'DESIGN.md 3.11'
     runs = {'quick': 600, 'thorough': 15000}
-    shrink_lists = (('ops',), ('config', 'resources'), ('config', 'routes'))
+    shrink_lists = (('ops',), ('conc', 'ks'), ('config', 'resources'), ('config', 'routes'))
     rule = ('host applications with generated resources (names with "secret" as prefix/infix/suffix and without; values str, bytes, '
             'numbers, containers, objects whose repr contains the value or raises), routes of every endpoint kind, static and '
             'embedded applications, middlewares incl. SignedCookie with a known key; meta mounted at a generated prefix, also two '
@@ -197,7 +203,7 @@ class C18(Check):
     level_text = ('Single host-call faults are enumerated completely (every call site x every documented exception and unusual '
                   'value, both views) on a fixed host; host applications and multi-fault plans are sampled.')
     level_note = 'Trusted: the catalogue of what each host call can raise/return (sim/core/hoststub.py).'
-    required_probes = ('host-context-processor-requires-a-secret-resource', 'endpoint-with-unserialisable-defaults', 'equal-but-different-values-listed', 'cookie-key-given-as-text', 'tuple-valued-resource', 'secret-resource-with-failing-repr', 'host-context-names-clash-with-meta-working-names', 'sibling-section-cannot-be-computed', 'host-shares-middleware-type-with-meta', 'secret-redacted-html', 'secret-redacted-json', 'fault-fired-page-200', 'all-calls-failing', 'depth-2',
+    required_probes = ('two-clients-on-a-fresh-host', 'host-context-processor-requires-a-secret-resource', 'endpoint-with-unserialisable-defaults', 'equal-but-different-values-listed', 'cookie-key-given-as-text', 'tuple-valued-resource', 'secret-resource-with-failing-repr', 'host-context-names-clash-with-meta-working-names', 'sibling-section-cannot-be-computed', 'host-shares-middleware-type-with-meta', 'secret-redacted-html', 'secret-redacted-json', 'fault-fired-page-200', 'all-calls-failing', 'depth-2',
                        'plain-visible', 'bad-repr-section-inline', 'cookie-mw-present')
 
     # ---- generation --------------------------------------------------------
@@ -267,6 +273,76 @@ class C18(Check):
                 ops.append({'view': view, 'faults': allf})
         for k in range(0, len(ops), 60):
             yield {'world': 'meta', 'seed': base_seed, 'config': cfg, 'ops': ops[k:k + 60], 'sweep': True}
+        # two clients at once on a freshly built host (a threaded server's first moments): client A is parked at its k-th
+        # line inside the framework, client B is served completely, then A goes on -- for every k (quick: every 3rd / 8th)
+        for va, vb, stride in (('json', 'json', 3), ('html', 'json', 8), ('json', 'html', 8), ('html', 'html', 8)):
+            n = self.conc_steps(cfg, va)
+            ks = list(range(1, n + 1, stride if tier == 'quick' else 1))
+            for j in range(0, len(ks), 20):
+                yield {'world': 'meta', 'seed': base_seed, 'config': cfg, 'ops': [], 'conc': {'views': [va, vb], 'ks': ks[j:j + 20]}}
+
+    _CONC_N = {}
+
+    def conc_steps(self, cfg, view):
+        key = (canon(cfg), view)
+        if key not in self._CONC_N:
+            stub = HostStub(clock=SimClock())
+            with Seams() as sm:
+                stub.install(sm, cmeta)
+                stub.set_faults({})
+                app, base, _, _ = self.build(cfg)
+                s = BatonScheduler(['T0'], [], 'line', CONC_WATCH)
+                s.run({'T0': lambda: call_app(app, make_environ('GET', base + ('json/' if view == 'json' else ''), headers={'Accept': 'text/html'}))})
+            self._CONC_N[key] = s.steps
+        return self._CONC_N[key]
+
+    def execute_conc(self, plan):
+        res = RunResult()
+        cfg = plan['config']
+        K = 'C18/'
+        va, vb = plan['conc']['views']
+        stub = HostStub(clock=SimClock())
+        with Seams() as sm:
+            stub.install(sm, cmeta)
+            stub.set_faults({})
+            for k in plan['conc']['ks']:
+                app, base, secrets, serving = self.build(cfg)        # nobody has called it yet
+                got = {}
+
+                def task(name, view):
+                    def run():
+                        got[name] = call_app(app, make_environ('GET', base + ('json/' if view == 'json' else ''), headers={'Accept': 'text/html'}))
+                    return run
+                sched = BatonScheduler(['T0', 'T1'], [[k, 'T1']], 'line', CONC_WATCH)
+                sched.run({'T0': task('T0', va), 'T1': task('T1', vb)})
+                res.steps += 1
+                res.fire('preempt', len(sched.switches))
+                if sched.switches:
+                    res.nontrivial = True
+                    res.probe('two-clients-on-a-fresh-host')
+                res.sigs.add('conc|%s|%s|%s' % (va, vb, sched.switches[0][3] if sched.switches else '-'))
+                res.ev('conc', va, vb, k, 'switches', len(sched.switches))
+                for name, view in (('T0', va), ('T1', vb)):
+                    ctx = 'two clients on a fresh host: %s (%s view) parked at its line %d while %s (%s view) is served' % ('T0', va, k, 'T1', vb)
+                    if name in sched.errors:
+                        res.violate(K + 'conc/thread-raised:%s' % type(sched.errors[name]).__name__, ctx + ' -> %r' % (sched.errors[name],))
+                        return res
+                    ex = got[name]
+                    if ex.escaped is not None:
+                        res.violate(K + 'conc/exception-escaped:%s' % type(ex.escaped).__name__, ctx + ' -> %s: %r' % (name, ex.escaped))
+                        return res
+                    if ex.code != 200:
+                        res.violate(K + 'conc/page-status-%s:%s' % (ex.code, view), ctx + ' -> %s: %s' % (name, ex.status))
+                        return res
+                    body = ex.body.decode('utf8', 'replace')
+                    if [m for m in secrets if m in body] or COOKIE_KEY.decode() in body:
+                        res.violate(K + 'conc/secret-disclosed:%s' % view, ctx + ' -> the page of %s contains a secret value' % name)
+                        return res
+                    bad = self.check_resources(view, body, serving, res)
+                    if bad:
+                        res.violate(K + 'conc/' + bad[0] + ':' + view, ctx + ' -> %s: %s' % (name, bad[1]))
+                        return res
+        return res
 
     # ---- execution ---------------------------------------------------------
     def build(self, cfg):
@@ -342,6 +418,8 @@ class C18(Check):
         return app, base, secrets, serving
 
     def execute(self, plan):
+        if plan.get('conc'):
+            return self.execute_conc(plan)
         res = RunResult()
         cfg = plan['config']
         K = 'C18/'
